@@ -79,6 +79,7 @@ def run(facts, rep):
     d9_reference_window(facts, rep)
     d10_token_ownership(facts, rep)
     d11_local_ownership(facts, rep)
+    d11_handlers_do_not_delete_what_they_may_not_own(facts, rep)
     d12_no_user_code_after_self_destruction(facts, rep)
     d12_fold_tolerates_throwing_join(facts, rep)
     d13_constructor_reservations(facts, rep)
@@ -896,3 +897,77 @@ def zombie_pairing(facts, rep, clause):
                    'never constructed and ~Body() runs on raw storage when the tree is folded', ln=nd['ln'], key_extra='flag-after')
     if not nsites:
         raise AnalysisBroken('no placement new into reduction_tree_node::zombie_space found (the lazy body split)')
+
+
+def d11_handlers_do_not_delete_what_they_may_not_own(facts, rep):
+    """A task object normally owns itself: its execute()/cancel() end by deleting it.  A function that creates such an object
+    and keeps a reference may delete it itself only while the object has not been handed to the scheduler or to a tree that will
+    run it.  On the normal path that is decided by the branch the function is in; a scope-exit handler (try_call(..).on_exception,
+    raii_guard) runs after ANY of the covered calls has thrown, also after the object has been passed on - there an unconditional
+    delete_object of an escaped, self-deleting task object destroys it a second time.  Rule: such a handler deletes the object only
+    under a guard (some branch inside the handler decides)."""
+    from engine.rules import Summaries
+    summ = Summaries(facts, max_depth=4)
+
+    def deletes_this(g, pos, e):
+        if not isinstance(e, int) or g.nodes[e].get('k') != 'call' or (g.callee(e) or {}).get('n') != 'delete_object':
+            return False
+        return any(g.nodes[x].get('k') == 'this' for a in g.nodes[e].get('a', []) for x in g.subtree(a))
+    n = 0
+    for fn in sorted(facts.fns.values(), key=lambda f: f.q):
+        if not fn.q.startswith('tbb::detail::') or fn.kind == 'lambda':
+            continue
+        news = calls_named(fn, ('new_object',))
+        if not news:
+            continue
+        hs = exceptional_path_functions(facts, fn)
+        if not hs:
+            continue
+        defs = Defs(fn)
+        for npos, ns, nnode, nd in news:
+            q = (nd or {}).get('q') or ''
+            tname = q.split('new_object<', 1)[-1].split('>::', 1)[0] if 'new_object<' in q else ''
+            tcls = tname.split('<', 1)[0].strip()
+            selfdel = False
+            for mname in ('execute', 'cancel'):
+                for g in facts.by_p.get(tcls + '::' + mname, []):
+                    if summ.may(g, 'deletes-this', deletes_this):
+                        selfdel = True
+            if not selfdel:
+                continue
+            owner = None
+            for (vid, dn), val in defs.value_of.items():
+                if val is not None and ns in fn.subtree(val):
+                    owner = vid
+            if owner is None:
+                continue
+            oname_ = next((v['n'] for nd_ in fn.nodes if nd_ and nd_.get('k') == 'decl' for v in nd_['vars'] if v['v'] == owner), None)
+            # does the object escape inside the region a handler covers?  (it is passed as an argument to some call there - to a
+            # constructor or a method of another object; using its own members does not count)
+            covered = []
+            for pos_, kind_, bodies_, handlers_, node_ in try_call_sites(facts, fn):
+                covered += [(b_, handlers_) for b_ in bodies_]
+            for h in hs:
+                bodies = [b_ for b_, hh in covered if h in hh] or [fn]
+                escapes = False
+                for b_ in bodies:
+                    for pos2, s2, node2, d2 in calls(b_):
+                        if (d2 or {}).get('n') == 'delete_object':
+                            continue
+                        if any(b_.nodes[x].get('k') in ('var', 'member') and b_.nodes[x].get('n') == oname_ and 'fn' not in b_.nodes[x]
+                               for a in node2.get('a', []) for x in b_.subtree(a)):
+                            escapes = True
+                if not escapes:
+                    continue
+                for pos, s_, node, d in calls_named(h, ('delete_object',)):
+                    # the handler captures the owner by reference: the argument names the same variable
+                    if not any(h.nodes[x].get('k') in ('var', 'member') and (h.nodes[x].get('n') == oname_) for a in node.get('a', []) for x in h.subtree(a)):
+                        continue
+                    n += 1
+                    guarded = any(len(blk['succ']) == 2 and blk.get('term') and 'c' in blk['term'] and
+                                  h.can_reach((b, len(blk['e']) - 1 if blk['e'] else -1), pos) for b, blk in h.blocks.items())
+                    rep.ob('D11', 'K3', fn, 'a scope-exit handler deletes a self-deleting task object only under a guard', guarded,
+                           'the handler deletes `%s` (a %s, which deletes itself when it is executed or cancelled) unconditionally: after the object '
+                           'has been handed to the tree / the scheduler an exception from a later call makes the handler destroy it a second '
+                           'time' % (oname_, tcls.split('::')[-1]), ln=node.get('ln'), key_extra='handler-delete|%s' % oname_)
+    rep.note('D11 handlers deleting self-deleting task objects: %d' % n)
